@@ -2,6 +2,8 @@ package c10
 
 import (
 	"database/sql"
+	"database/sql/driver"
+	"encoding/json"
 	"fmt"
 	"reflect"
 	"sort"
@@ -40,6 +42,8 @@ func normDB(v interface{}) string {
 	switch x := v.(type) {
 	case nil:
 		return "NULL"
+	case []string, map[string]int64:
+		return normDB(dbArg(x)) // stored as JSON text
 	case int64:
 		return strconv.FormatInt(x, 10)
 	case float64:
@@ -60,6 +64,94 @@ func normDB(v interface{}) string {
 	}
 }
 
+// StrList is a named slice type that is its own driver.Valuer / sql.Scanner (stored as JSON text,
+// nil as NULL): a column of Go kind Slice that needs no serializer.
+type StrList []string
+
+func (l StrList) Value() (driver.Value, error) {
+	if l == nil {
+		return nil, nil
+	}
+	b, err := json.Marshal([]string(l))
+	return string(b), err
+}
+
+func (l *StrList) Scan(v interface{}) error {
+	switch x := v.(type) {
+	case nil:
+		*l = nil
+	case string:
+		return json.Unmarshal([]byte(x), (*[]string)(l))
+	case []byte:
+		return json.Unmarshal(x, (*[]string)(l))
+	default:
+		return fmt.Errorf("StrList: cannot scan %T", v)
+	}
+	return nil
+}
+
+// dbArg: the form in which a logical base value is stored (collections other than []byte: JSON text).
+func dbArg(v interface{}) interface{} {
+	switch x := v.(type) {
+	case []string:
+		b, _ := json.Marshal(x)
+		return string(b)
+	case map[string]int64:
+		b, _ := json.Marshal(x) // keys sorted
+		return string(b)
+	}
+	return v
+}
+
+// isColl: classes whose Go kind is Slice or Map. Their zero value is nil (stored as NULL); an EMPTY
+// but non-nil value is not the zero value of the type and is stored as an empty blob / "[]" / "{}".
+func isColl(class string) bool {
+	return class == "bytes" || class == "jstrs" || class == "jmap" || class == "list"
+}
+
+// emptyOf: the empty, non-nil value of a collection class.
+func emptyOf(class string) lval {
+	switch class {
+	case "bytes":
+		return lval{v: []byte{}}
+	case "jmap":
+		return lval{v: map[string]int64{}}
+	default:
+		return lval{v: []string{}}
+	}
+}
+
+// isEmptyColl: an empty but non-nil collection value.
+func isEmptyColl(l lval) bool {
+	if l.null {
+		return false
+	}
+	switch x := l.v.(type) {
+	case []byte:
+		return x != nil && len(x) == 0
+	case []string:
+		return x != nil && len(x) == 0
+	case map[string]int64:
+		return x != nil && len(x) == 0
+	}
+	return false
+}
+
+// kindTag: the tag part a field of this kind needs to be a column at all.
+func (k kind) kindTag() string {
+	switch k.class {
+	case "jstrs", "jmap":
+		return "serializer:json"
+	case "list":
+		return "type:text"
+	}
+	return ""
+}
+
+// serialized: the column content is produced by a gorm serializer from the field value (a value
+// handed over in a MAP does not pass through it).
+func (k kind) serialized() bool { return k.class == "jstrs" || k.class == "jmap" }
+
 type kind struct {
 	name  string // Go spelling
 	typ   reflect.Type
@@ -74,6 +166,9 @@ var (
 	tFloat  = reflect.TypeOf(float64(0))
 	tTime   = reflect.TypeOf(time.Time{})
 	tBytes  = reflect.TypeOf([]byte(nil))
+	tStrs   = reflect.TypeOf([]string(nil))
+	tIMap   = reflect.TypeOf(map[string]int64(nil))
+	tList   = reflect.TypeOf(StrList(nil))
 )
 
 var (
@@ -93,6 +188,10 @@ var kinds = []kind{
 	kString, kString, kString,
 	kTime,
 	{"[]byte", tBytes, "bytes", "plain", "BLOB"},
+	{"[]byte", tBytes, "bytes", "plain", "BLOB"},
+	{"[]string", tStrs, "jstrs", "plain", "TEXT"},        // serializer:json
+	{"map[string]int64", tIMap, "jmap", "plain", "TEXT"}, // serializer:json
+	{"StrList", tList, "list", "plain", "TEXT"},          // named slice type, driver.Valuer + sql.Scanner
 	{"*int64", reflect.PtrTo(tInt64), "int", "ptr", "INTEGER"},
 	{"*string", reflect.PtrTo(tString), "string", "ptr", "TEXT"},
 	{"*float64", reflect.PtrTo(tFloat), "float", "ptr", "REAL"},
@@ -132,6 +231,10 @@ func baseIsZero(l lval) bool {
 	case time.Time:
 		return x.IsZero()
 	case []byte:
+		return x == nil
+	case []string:
+		return x == nil
+	case map[string]int64:
 		return x == nil
 	}
 	return false
@@ -188,7 +291,17 @@ func goLit(k kind, l lval) string {
 			}
 			return "T(" + x.UTC().Format("2006-01-02T15:04:05Z") + ")"
 		case []byte:
+			if len(x) == 0 {
+				return "[]byte{}"
+			}
 			return "[]byte(" + strconv.Quote(string(x)) + ")"
+		case []string:
+			if k.class == "list" {
+				return strings.Replace(fmt.Sprintf("%#v", x), "[]string", "StrList", 1)
+			}
+			return fmt.Sprintf("%#v", x)
+		case map[string]int64:
+			return fmt.Sprintf("%#v", x)
 		}
 		return "?"
 	}
@@ -330,7 +443,7 @@ func (f *field) absent() string {
 func (f *field) defaultFor(r *core.Rand, n int) string {
 	c := f.k.class
 	kindOf := core.Pick(r, []string{"expr", "expr", "expr", "lit", "lit", "null"})
-	if c == "time" || c == "bytes" {
+	if c == "time" || isColl(c) {
 		kindOf = "null"
 	}
 	f.def = kindOf
@@ -515,6 +628,13 @@ func genModel(r *core.Rand, table string) *model {
 		if defTag != "" && !defFirst {
 			tags = append(tags, defTag)
 		}
+		if kt := f.k.kindTag(); kt != "" {
+			if r.Bool() {
+				tags = append(tags, kt)
+			} else {
+				tags = append([]string{kt}, tags...)
+			}
+		}
 		f.tag = strings.Join(tags, ";")
 		add(f)
 	}
@@ -609,6 +729,12 @@ func sentinel(f *field, ri int) lval {
 		return lval{v: fmt.Sprintf("s%d_%d", ri, f.idx)}
 	case "time":
 		return lval{v: time.Date(2001, 1, 1+ri, f.idx, 0, 0, 0, time.UTC)}
+	case "jstrs":
+		return lval{v: []string{fmt.Sprintf("s%d_%d", ri, f.idx), "x"}}
+	case "list":
+		return lval{v: []string{fmt.Sprintf("l%d_%d", ri, f.idx)}}
+	case "jmap":
+		return lval{v: map[string]int64{"s": n, "t": 1}}
 	default:
 		return lval{v: []byte(fmt.Sprintf("b%d_%d", ri, f.idx))}
 	}
@@ -625,6 +751,12 @@ func fresh(class string, n int) lval {
 		return lval{v: fmt.Sprintf("v%d", n)}
 	case "time":
 		return lval{v: time.Date(2015, 1, 1, 0, 0, 0, 0, time.UTC).Add(time.Duration(n) * time.Hour)}
+	case "jstrs":
+		return lval{v: []string{fmt.Sprintf("v%d", n)}}
+	case "list":
+		return lval{v: []string{fmt.Sprintf("w%d", n), "z"}}
+	case "jmap":
+		return lval{v: map[string]int64{"v": int64(n)}}
 	default:
 		return lval{v: []byte(fmt.Sprintf("w%d", n))}
 	}
@@ -792,6 +924,9 @@ func (m *model) layout(r *core.Rand, npk int) {
 		}
 		if len(tags) == 2 && r.Bool() {
 			tags[0], tags[1] = tags[1], tags[0]
+		}
+		if kt := d.k.kindTag(); kt != "" {
+			tags = append(tags, kt)
 		}
 		d.tag = strings.Join(tags, ";")
 		f.dup = d
